@@ -9,6 +9,18 @@ CHECKS = {
          "Machine-checked proof (Lean 4 kernel): parse(print n) = n for every namespace index (any Int), identifier type and identifier string; mapped / unmapped / alias cases; no_misread: everything accepted decomposes as [ns=<int>;]<t>=<ident>. The theorems are about the model; the model is tied to the current /repo source on every run by executing model and implementation on the same texts (all 37 449 texts up to length 5 over the syntax alphabet, 5 000 printed random NodeIds, mutations, maps, aliases) and by an independent grammar oracle evaluated on the real code.",
          "Trusted: Lean kernel, the prelude's model of str.split/lstrip/int/str(int) (validated by the same run), the driver's JSON decoding, the harness. Assumes str identifiers and ASCII digits in int()/isdigit().",
          "DESIGN.md section 3 C09"),
+ "C12": ("Lean 4 theorems about a hand model of fast_transitive_closure (Boolean-matrix squaring to a fixed point), typing_transitive_reflexive, subtypes/supertypes, constrain_to_reference_type, the modelling-rule selectors and find_circular_reference_nodes + differential correspondence against /repo",
+         "Machine-checked proof: closure_iff_reach ((a,b) in closure E <-> a != b and TransGen edge a b, for every finite edge list, fuel |V|^2+1 proved sufficient), closure_nodup, subtypes_iff / supertypes_iff (ReflTransGen along HasSubtype for types that occur), constrain_exact, mr_partition, circular_exact. Tie: model and implementation run on all 4096 digraphs on 4 nodes, random graphs with parallel edges, random reference-type hierarchies; a BFS oracle evaluates the property directly on the real code.",
+         "Trusted: Lean kernel + Mathlib.Logic.Relation, the list model of pandas joins / scipy sparse products, driver, harness, BFS oracle. Hypotheses: no self-loops (asserted by the code); selector type occurs in some reference (else known finding D-C12a).",
+         "DESIGN.md section 3 C12"),
+ "C13": ("Lean 4 theorems about a hand model of find_relatives (level-by-level join) and create_node_paths_by_reference_types + differential correspondence against /repo",
+         "Machine-checked proof: findRelatives_iff (a row is produced iff it is a walk of <= cutoff edges from a start node), findRelatives_count (multiplicity = number of start occurrences x edge sequences; parallel edges are distinct walks), dag_walk_bound / findRelativesNoCutoff_iff (on acyclic edges the level loop enumerates all walks), nodePaths_iff. Tie: all 64 topologically labelled 4-node DAGs x directions x cut-offs x keep_paths, random DAGs, random trees with hostile browse names; a DFS oracle evaluates the property on the real code.",
+         "Trusted: Lean kernel, list model of pandas inner join / melt / groupby, driver, harness, DFS oracle. Domain: acyclic edges when no cut-off; node paths on trees.",
+         "DESIGN.md section 3 C13"),
+ "C14": ("Lean 4 theorems about a hand model of lt/le/gt/ge, dataclass ==, row sorting and id denormalisation + differential correspondence against /repo and a metamorphic check on real graphs",
+         "Machine-checked proof: lt is a strict weak order on (class name, printed tuple) keys (lt_irrefl, lt_trans, lt_trichotomy), le_iff_not_lt, sort_canonical (sorted table depends only on the multiset of rows), renumber_invariant / renumber_invariant_refs (normalised tables invariant under injective id renumbering + row permutation), eq_implies_same_fields, eq_no_error with witness eq_na_witness. Tie: all pairs of a value pool (operators vs model, trichotomy, eq=>hash, no exception), pandas sort_values vs the model's sortRows, real UAGraph shuffled and renumbered.",
+         "Trusted: Lean kernel, CPython str ordering and dataclass eq/hash, pandas sort_values, driver, harness. Known finding D-C14a (== raises with one-sided pd.NA).",
+         "DESIGN.md section 3 C14"),
 }
 PENDING_REASON = "check not built yet in this session; planned as a Lean model + correspondence check (DESIGN.md section 3)"
 
